@@ -542,12 +542,19 @@ func (w *World) Body(r *Reg, ft reflect.Type) func(args []reflect.Value) []refle
 			finish("nil")
 			return res
 		}
+		nilOut := -1
+		if strings.HasPrefix(fault, "nil:") {
+			fmt.Sscanf(fault, "nil:%d", &nilOut)
+		}
 		switch r.Kind {
 		case "void", "voiderr":
 		default:
 			if r.ResObj {
 				sv := reflect.New(ft.Out(0)).Elem()
 				for i, o := range r.Outs {
+					if i == nilOut {
+						continue
+					}
 					in, val := w.newInst(r, call, i, concOf(o))
 					call.Outs = append(call.Outs, in)
 					sv.Field(i + 1).Set(reflect.ValueOf(val))
@@ -555,6 +562,9 @@ func (w *World) Body(r *Reg, ft reflect.Type) func(args []reflect.Value) []refle
 				res[0] = sv
 			} else {
 				for i, o := range r.Outs {
+					if i == nilOut {
+						continue // this output stays a typed nil
+					}
 					in, val := w.newInst(r, call, i, concOf(o))
 					call.Outs = append(call.Outs, in)
 					v := reflect.New(ft.Out(i)).Elem()
